@@ -105,6 +105,10 @@ func writeEvidence(p *Property, tier string, seed uint64, start time.Time, st *c
 	}
 	dir := filepath.Join(VerifDir(), "evidence")
 	os.MkdirAll(dir, 0o755)
-	b, _ := json.MarshalIndent(ev, "", " ")
+	b, err := json.MarshalIndent(ev, "", " ")
+	if err != nil {
+		fmt.Fprintln(os.Stderr, "HARNESS: evidence not serialisable:", err)
+		os.Exit(2)
+	}
 	os.WriteFile(filepath.Join(dir, p.ID+".json"), b, 0o644)
 }
